@@ -260,7 +260,7 @@ class E2E:
                         self.bad("COPY", text, f"answered OK [{r.tagged.code}] instead of BAD")
                 elif r.status != "OK":
                     if not (uid_mode and may_rej and r.status == "BAD"):
-                        self.bad("UID COPY" if uid_mode else "COPY", text, f"{r.status} {r.tagged.text}; want {fmt(want)}")
+                        self.bad("UID COPY" if uid_mode else "COPY", text, f"{r.status} {r.tagged.text if r.tagged else ''}; want {fmt(want)}")
                 elif got != want:
                     self.bad("UID COPY" if uid_mode else "COPY", text, f"COPYUID sources {sorted(got)} want {fmt(want)} (uids {uids})")
             if self.copies > 60:
@@ -336,6 +336,10 @@ class E2E:
                 for text in ["1:*", "*", f"{lo}", f"{victims[0]}", f"{victims[0]}:{victims[-1] + 1}", f"{now[len(now) // 2]}:*" if now else "1", "2:3", f"{now[-1]}" if now else "1"]:
                     await self.one(text, heavy=True)
                     cx["sets_after_failed_commit"] += 1
+                    if self.s.writer.closed or self.s.wire_error:
+                        self.bad("session", text, "after an EXPUNGE whose commit failed: connection lost: " + str(self.s.log[-3:])[:300])
+                        self.s = self.rig.session("D3")
+                        await self.s.cmd(f"SELECT {name}")
         finally:
             state["armed"] = False
             self.uids, self.name = keep_uids, keep_name
